@@ -9,6 +9,7 @@ import (
 	"crypto/ecdsa"
 	"encoding/json"
 	"fmt"
+	"github.com/LemoFoundationLtd/lemochain-core/common/rlp"
 	"math/big"
 	"os"
 	"sort"
@@ -57,7 +58,7 @@ type ledgerTx struct {
 	orig      *types.Transaction // pristine copy (a box tx is rewritten in place when executed)
 	id        int
 	fwdTarget common.Address // create-forwarder*: the address the deployed contract forwards the call's value to
-	fromKeys  []string // labels of the keys that really signed Sigs (ground truth for C06)
+	fromKeys  []string       // labels of the keys that really signed Sigs (ground truth for C06)
 	payerKeys []string
 	tampered  bool // content changed after signing
 	class     string
@@ -79,24 +80,24 @@ type ledger struct {
 	univ   []common.Address
 	nextID int
 	// ground truth of multisig configuration and who is candidate, maintained from observed state
-	mode    string
+	mode      string
 	curHeight uint32 // height of the block being described
 	byNodeID  map[string]*ecdsa.PrivateKey
 	// the PARENT view of the block being judged, captured BEFORE the block is inserted: in a term with a single deputy the
 	// miner's own signature makes the block stable at once and the parent's account view is gone afterwards
 	// the harness's OWN record of every account's signer list on the main chain (from the ModifySigners txs of the blocks
 	// that were inserted): the C06 oracle never asks the implementation what the registered signers are
-	truth    map[common.Address]types.Signers
-	rewardSet  map[uint32]*big.Int // term -> reward the reward manager's INCLUDED set-reward tx stored (harness record)
-	rewardPaid map[uint32]uint32   // term -> height at which its salaries were minted
+	truth        map[common.Address]types.Signers
+	rewardSet    map[uint32]*big.Int // term -> reward the reward manager's INCLUDED set-reward tx stored (harness record)
+	rewardPaid   map[uint32]uint32   // term -> height at which its salaries were minted
 	termT, termI uint32
-	pvHash   common.Hash
-	pvViews  map[common.Address]acctView
-	pvNodeID map[common.Address]string
-	pvBal    map[common.Address]*big.Int
-	pvCode   map[common.Address]bool
-	actorOf map[common.Address]string // account address -> name of its key (users, genesis deputies, income addresses)
-	fwd     map[common.Address]common.Address // forwarder contract -> the address its code forwards the call's value to
+	pvHash       common.Hash
+	pvViews      map[common.Address]acctView
+	pvNodeID     map[common.Address]string
+	pvBal        map[common.Address]*big.Int
+	pvCode       map[common.Address]bool
+	actorOf      map[common.Address]string         // account address -> name of its key (users, genesis deputies, income addresses)
+	fwd          map[common.Address]common.Address // forwarder contract -> the address its code forwards the call's value to
 }
 
 func (l *ledger) label(a common.Address) int {
@@ -342,8 +343,10 @@ func ledgerScenario(c *Ctx, mode string) {
 		remaining -= nb
 		c.Count("epoch")
 	}
-	if f := ledgerExtras[mode]; f != nil { f(c) } // per-mode additions registered by other files (c06*.go: temp addresses, gate table, all-type engine cases)
-	evmValueCases(c, mode) // c05_evmvalue.go: generated frame-tree programs vs LemoModel.EvmValue (own random stream)
+	if f := ledgerExtras[mode]; f != nil {
+		f(c)
+	} // per-mode additions registered by other files (c06*.go: temp addresses, gate table, all-type engine cases)
+	evmValueCases(c, mode)   // c05_evmvalue.go: generated frame-tree programs vs LemoModel.EvmValue (own random stream)
 	dirtyTraceCases(c, mode) // c05_dirtytrace.go: C07 engine cases — a discarded box / failed call leaves no queued write behind (no random stream, no op lines)
 }
 
@@ -434,7 +437,7 @@ func ledgerEpoch(c *Ctx, mode string, nBlocks int, epoch int) {
 	u_ := func(p string) string { uniq++; return fmt.Sprintf("%s%d", p, uniq) }
 	mk := func(tx *types.Transaction, class string, fromKeys ...string) *ledgerTx {
 		l.nextID++
-		return &ledgerTx{tx: tx, orig: tx.Clone(), id: l.nextID, fromKeys: fromKeys, class: class}
+		return &ledgerTx{tx: tx, orig: cloneTx(tx), id: l.nextID, fromKeys: fromKeys, class: class}
 	}
 	rnd := c.Rnd
 	amountNear := func(bal *big.Int) *big.Int {
@@ -453,7 +456,7 @@ func ledgerEpoch(c *Ctx, mode string, nBlocks int, epoch int) {
 
 	contractBlock := false
 	forcedCall := map[uint32]common.Address{} // main-chain height -> contract that block must call (after a fork scenario)
-	assetBlock := false // c01 mode: a block of asset txs (create / issue / replenish / multi-key modify / transfer)
+	assetBlock := false                       // c01 mode: a block of asset txs (create / issue / replenish / multi-key modify / transfer)
 	type assetRec struct {
 		code, id      common.Hash
 		owner, holder string
@@ -1047,7 +1050,10 @@ func ledgerEpoch(c *Ctx, mode string, nBlocks int, epoch int) {
 			// txdata, on plain transfers, on a vote, on a registration, and the gas terms / content of a reimbursed tx AFTER
 			// the gas payer signed
 			field := []string{"amount", "to", "gasLimit", "gasPrice", "expirationTime", "message", "data", "from", "type", "chainID", "version", "toName", "gasPayer",
-				"reimb-gasPrice", "reimb-gasLimit", "reimb-amount", "reimb-gasPayer", "vote-to", "register-data"}[rnd.Intn(19)]
+				"reimb-gasPrice", "reimb-gasLimit", "reimb-amount", "reimb-gasPayer", "vote-to", "register-data", "gasPayer-dropped"}[rnd.Intn(20)]
+			if l.mode == "c06" && rnd.Intn(6) == 0 {
+				field = "gasPayer-dropped"
+			}
 			var lt *ledgerTx
 			switch {
 			case strings.HasPrefix(field, "reimb-"):
@@ -1105,6 +1111,10 @@ func ledgerEpoch(c *Ctx, mode string, nBlocks int, epoch int) {
 					m["toName"] = "alice"
 				case "gasPayer", "reimb-gasPayer":
 					m["gasPayer"] = keyAddr(l.key("intruder")).String()
+				case "gasPayer-dropped":
+					// the optional member is removed: the tx then carries NO gas payer (rlp:"nil" pointer), which the accessor GasPayer()
+					// reads as `from` — the signed field list must tell the two encodings apart, the tx id does
+					delete(m, "gasPayer")
 				case "vote-to":
 					if len(cands) > 1 {
 						m["to"] = cands[rnd.Intn(len(cands))].String()
@@ -1647,7 +1657,7 @@ func ledgerEpoch(c *Ctx, mode string, nBlocks int, epoch int) {
 						continue
 					}
 					fb := CloneBlock(b)
-					fb.Txs = append(fb.Txs, itx.Clone())
+					fb.Txs = append(fb.Txs, cloneTx(itx))
 					fb.Header.TxRoot = fb.Txs.MerkleRootSha()
 					Resign(fb, k)
 					if e := n.Insert(fb); e == nil {
@@ -1663,7 +1673,7 @@ func ledgerEpoch(c *Ctx, mode string, nBlocks int, epoch int) {
 				l.discardTrace(b, parent, t, byHash, blockGas, k)
 			}
 			l.captureParent(b, miner)
-			l.evmValueBlock(b, miner) // c05_evmvalue.go: contract blocks vs LemoModel.EvmValue (re-executed by Process on the parent state)
+			l.evmValueBlock(b, miner)             // c05_evmvalue.go: contract blocks vs LemoModel.EvmValue (re-executed by Process on the parent state)
 			l.guardCaptureIf(modelled, b, byHash) // c05_guard.go: the real engine's raw change logs of the block (C11 `guard` op)
 			if e := n.Insert(CloneBlock(b)); e != nil {
 				if os.Getenv("HX_DEBUG") != "" {
@@ -1923,7 +1933,7 @@ func (l *ledger) oracles(b *types.Block, invalid types.Transactions, byHash map[
 		// the closing term and its reward by the harness's own record: term index from own arithmetic, value = what the
 		// included set-reward tx asked for (0 when none was sent)
 		if b.Height() >= l.termT+l.termI+1 {
-			ownTerm := (b.Height()-1-l.termI-1)/l.termT
+			ownTerm := (b.Height() - 1 - l.termI - 1) / l.termT
 			if b.Height()-1 < l.termT+l.termI+1 {
 				ownTerm = 0
 			}
@@ -2422,11 +2432,11 @@ func (l *ledger) rebuildChecks(b *types.Block, cands types.Transactions, t uint3
 		var only types.Transactions
 		if rep == 0 {
 			for _, tx := range b.Txs {
-				only = append(only, tx.Clone())
+				only = append(only, cloneTx(tx))
 			}
 		} else {
 			for _, tx := range cands {
-				only = append(only, tx.Clone())
+				only = append(only, cloneTx(tx))
 			}
 		}
 		// box txs were rewritten in place by the first run (sub-tx gasUsed): restore the originals
@@ -2435,7 +2445,7 @@ func (l *ledger) rebuildChecks(b *types.Block, cands types.Transactions, t uint3
 				id := byHashID(byHash, tx)
 				for _, lt := range byHash {
 					if lt.id == id {
-						only[i] = lt.orig.Clone()
+						only[i] = cloneTx(lt.orig)
 					}
 				}
 			}
@@ -2466,14 +2476,14 @@ func (l *ledger) discardTrace(b *types.Block, parent *types.Block, t uint32, byH
 	c := l.c
 	var only types.Transactions
 	for _, tx := range b.Txs {
-		only = append(only, tx.Clone())
+		only = append(only, cloneTx(tx))
 	}
 	for i, tx := range only {
 		if tx.Type() == params.BoxTx {
 			id := byHashID(byHash, tx)
 			for _, lt := range byHash {
 				if lt.id == id {
-					only[i] = lt.orig.Clone()
+					only[i] = cloneTx(lt.orig)
 				}
 			}
 		}
@@ -2609,4 +2619,24 @@ func (l *ledger) redoChecks(b *types.Block) {
 			c.Count("c07:redo-storage-compared")
 		}
 	}
+}
+
+// cloneTx: Transaction.Clone dereferences the optional gasPayer pointer unconditionally (chain/types/tx.go), so it panics on a tx that
+// carries no gas payer — an encoding that is legal on the wire (rlp:"nil") and that the tamper class gasPayer-dropped produces. The copy
+// through the wire form is what a receiving node holds anyway.
+func cloneTx(tx *types.Transaction) (out *types.Transaction) {
+	defer func() {
+		if recover() != nil {
+			b, err := rlp.EncodeToBytes(tx)
+			if err != nil {
+				panic(err)
+			}
+			t := new(types.Transaction)
+			if err := rlp.DecodeBytes(b, t); err != nil {
+				panic(err)
+			}
+			out = t
+		}
+	}()
+	return tx.Clone()
 }
